@@ -231,7 +231,13 @@ class Exec:
             ctl = sched.Controller(gdir, choices=self.choices, expected=expected, rng=self.rng)
             kwargs = {}
             if cfg["selection"] == "files":
-                found = list(fs.find(files[0][1], files[-1][2] + D(seconds=1), bundle=bundle))
+                how = cfg.get("files_as", "list")
+                found = fs.find(files[0][1], files[-1][2] + D(seconds=1), bundle=bundle)
+                if how != "generator":
+                    found = list(found)
+                    found = tuple(found) if how == "tuple" else iter(found) if how == "iter" else found
+                if how in ("generator", "iter"):
+                    rec.count("exec.files_as_one_shot_iterable")
                 kwargs["files"] = found
             else:
                 kwargs["start"] = files[0][1]
@@ -521,6 +527,9 @@ def gen_cfg(rng):
     W = rng.choice([1, 2, 3, n, max(1, n - 1)])
     cfg = base_cfg(method, wt, n, W)
     cfg["selection"] = rng.choice(["period", "files"])
+    # the files= argument as a list, a tuple, or a one-shot iterable (the generator find() returns,
+    # iter(list)) - all are "iterables of FileInfo"
+    cfg["files_as"] = rng.choice(["list", "list", "tuple", "generator", "iter"])
     cfg["return_info"] = rng.random() < 0.6
     if method in ("map", "imap"):
         cfg["on_content"] = rng.random() < 0.5
